@@ -177,6 +177,12 @@ class StmtMixin:
 
     def set_item(self, base_expr, base, idx, val):
         t = base.t
+        if is_py(base, 'pktfields'):
+            # pkt.fields[name] = v / pkt.overloaded_fields[name] = v: the record field (default None, see pkt_attr)
+            i, layer, fn = self.pkt_field_named(base.py[1], idx, 'fields[...] store')
+            ft = self.pkt_schema(layer).fields[fn]
+            self.write_heap(self.pkt_layer_ref(base.py[1], i), ('pkt:' + layer, fn), ft, coerce(val, ft))
+            return
         if isinstance(t, TDict) or base.py == ('emptydict',):
             if base.py == ('emptydict',):
                 t = TDict(idx.t, val.t)
